@@ -102,7 +102,7 @@ def value_of(ty, text):
 def check(tier):
     rep = Report(PID, tier, "exploration")
     wd = fresh_dir(PID)
-    n = 3 if tier == "quick" else 4
+    n = 2 if tier == "quick" else 4
     strings = []
     for k in range(0, n + 1):
         for t in itertools.product(ALPHA, repeat=k):
